@@ -100,7 +100,7 @@ func driveProvider(p core.Provider, entryOf func(a core.Ammo, ok bool) (string, 
 			}
 		}
 	}()
-	watch := time.After(8 * time.Second)
+	watch := time.After(wd(8 * time.Second))
 	var res provResult
 	var runEnd string
 	select {
